@@ -455,3 +455,8 @@ PLANS["C17"]["rule"] += (" Sample stage: 290 (quick) / 1,250 (thorough) scalar v
                          "the same comparisons against core where pointers are 32 bits wide and the byte order differs, with every unsafe operation checked.")
 PLANS["C17"]["min_counts"]["quick"].update({"c17.sample.scalars": 250})
 PLANS["C17"]["min_counts"]["thorough"].update({"c17.sample.scalars": 4000})
+
+# the behavioural monitors on a 32-bit big-endian target (Miri, thorough tier only: about nine seconds per session)
+for _p in ("C01", "C05", "C10", "C06"):
+    PLANS[_p]["stages"].append({"variant": "miri-mips", "workload": _p, "args_thorough": ["--scale", "0.00005"], "tiers": ["thorough"], "timeout_thorough": 7200})
+    PLANS[_p]["rule"] += " Thorough tier: about 190 of the random sessions under all monitors interpreted by Miri for a 32-bit big-endian target (mips-unknown-linux-gnu)."
